@@ -123,20 +123,23 @@ static int gen_c11(cs_t *cs, void *k, const runcfg_t *cfg) {
         memset(d, 0, sizeof *d);
         c->nd = 1;
         d->conv = (uint8_t)convs[cs_range(cs, 0, 8)];
-        d->flags = (uint8_t)cs_range(cs, 0, 31);
+        { static const uint8_t fl[] = {0, 1, 2, 4, 8, 16, 1 | 8, 2 | 16, 4 | 8 | 16, 31}; d->flags = fl[cs_range(cs, 0, 9)]; }
         d->width = ws[cs_range(cs, 0, 3)];
         d->prec = ps[cs_range(cs, 0, 3)];
-        if (strchr("duxo", d->conv)) { static const uint8_t ls[] = {LEN_NONE, LEN_HH, LEN_L, LEN_LL}; d->len = ls[cs_range(cs, 0, 3)]; d->vsel = (uint8_t)cs_range(cs, 0, 11); }
-        else if (is_float_conv(d->conv)) { d->len = (uint8_t)(cs_range(cs, 0, 1) ? LEN_BIGL : LEN_NONE); d->vsel = (uint8_t)cs_range(cs, 0, 26); }
+        if (strchr("duxo", d->conv)) { static const uint8_t ls[] = {LEN_NONE, LEN_HH, LEN_L, LEN_LL}; d->len = ls[cs_range(cs, 0, 3)]; d->vsel = (uint8_t)cs_range(cs, 0, 8); }
+        else if (is_float_conv(d->conv)) { d->len = (uint8_t)(cs_range(cs, 0, 3) == 0 ? LEN_BIGL : LEN_NONE); d->vsel = (uint8_t)cs_range(cs, 0, 26); }
         else { d->vsel = (uint8_t)cs_range(cs, 0, 5); d->flags &= 1; if (d->conv == 'c') d->prec = -1; }
         d->lit = (uint8_t)cs_range(cs, 0, 1);
         c->tail_lit = 0;
-        c->dmax_rel = (int16_t)rels[cs_range(cs, 2, 6)];
+        c->dmax_rel = (int16_t)rels[cs_range(cs, 3, 5)];
         c->dbos = (uint8_t)cs_noise(cs, 0, 1);
+        c->seed = (uint32_t)cs_noise(cs, 0, 0xffff);
         c->locale = 0; c->dirty = 1;
+        if (c->ent & 1) return 0; /* the v* twins share the engine: enumerated through the random phase only */
         return 1;
     }
     c->nd = (int)cs_range(cs, 0, 4);
+    c->seed = (uint32_t)cs_noise(cs, 0, 0xffff);
     c->locale = (uint8_t)cs_range(cs, 0, 1);
     for (i = 0; i < c->nd; i++) fmt_gen_dir(cs, &c->d[i], FK_PRINTF, 0, 1, c->locale);
     c->tail_lit = (uint8_t)cs_range(cs, 0, 7);
@@ -146,15 +149,26 @@ static int gen_c11(cs_t *cs, void *k, const runcfg_t *cfg) {
     return 1;
 }
 
-/* feature class of the format for finding keys */
+/* feature class of the format for finding keys: the first directive with a "risky" feature names the class */
+static int dval_kind(unsigned sel) { /* 0 plain, 1 special (inf nan -0 denormal), 2 large (>= 1e9) or tiny */
+    unsigned k = sel % 27;
+    if (k >= 24 || k == 1 || k == 12) return 1;
+    if (k == 7 || k == 8 || k == 9 || k == 10 || k == 11 || k == 20 || k == 23 || k == 16 || k == 15) return 2;
+    return 0;
+}
 static const char *c11_class(const fcase_t *c) {
     int i;
     static char buf[64];
     const char *cls = "literal-only";
     for (i = 0; i < c->nd; i++) {
         const fdir_t *d = &c->d[i];
-        if (d->conv == '%' ) continue;
-        if (is_float_conv(d->conv)) { snprintf(buf, sizeof buf, "float-%c%s", d->conv, d->len == LEN_BIGL ? "-L" : ""); return buf; }
+        int p = d->prec == -2 ? d->pstar : d->prec;
+        if (d->conv == '%') continue;
+        if (is_float_conv(d->conv)) {
+            const char *f = d->len == LEN_BIGL ? "long-double" : (dval_kind(d->vsel) == 1 ? "special-value" : (dval_kind(d->vsel) == 2 ? "large-or-tiny" : (p > 9 ? "prec>9" : "plain")));
+            snprintf(buf, sizeof buf, "float-%c:%s", d->conv, f);
+            return buf;
+        }
     }
     for (i = 0; i < c->nd; i++) {
         const fdir_t *d = &c->d[i];
@@ -163,9 +177,20 @@ static const char *c11_class(const fcase_t *c) {
         if (d->conv == 'C' || d->conv == 'S') { snprintf(buf, sizeof buf, "wide-%s", d->conv == 'C' ? "lc" : "ls"); return buf; }
         if (d->conv == 'c' && CVALS_is_nul(d->vsel)) return "char-NUL";
         if (strchr("diuxXo", d->conv)) {
-            if (p > 31 || w > 31) return "int-wide-field>31";
-            if (d->flags & 8) cls = "int-alt-form"; else if (!strcmp(cls, "literal-only")) cls = "int";
-        } else if (!strcmp(cls, "literal-only")) cls = d->conv == 's' ? "string" : "char";
+            if (p > 31 || w > 31) return "int:field>31";
+            if (d->flags & 8) return "int:alt-form";
+            if ((d->flags & 16) && d->prec != -1) return "int:zero-flag+precision";
+            if ((d->flags & (2 | 4)) && strchr("uxXo", d->conv)) return "int:sign-flag-on-unsigned";
+            if (d->prec == -2 && d->pstar < 0) return "int:negative-star-precision";
+            if (!strcmp(cls, "literal-only")) cls = "int:plain";
+        } else if (d->conv == 's') {
+            if (d->prec == -2 && d->pstar < 0) return "string:negative-star-precision";
+            if (d->prec == -2) return "string:star-precision";
+            if (p == 0) return "string:precision-0";
+            if (!strcmp(cls, "literal-only")) cls = "string:plain";
+        } else if (d->conv == 'c') {
+            if (!strcmp(cls, "literal-only")) cls = "char:plain";
+        }
     }
     return cls;
 }
@@ -208,7 +233,7 @@ static void exec_c11(const void *k, res_t *r, const runcfg_t *cfg) {
     const fent_t *e = &g_fent[c->ent];
     int nfloat = 0, ndir = 0, i, fits;
     size_t outlen;
-    const char *cls;
+    const char *cls, *ename = "";
     (void)cfg;
     fmt_run(c, &FX, 1, G_NA);
     r->hash = fmt_hash(c);
@@ -216,18 +241,20 @@ static void exec_c11(const void *k, res_t *r, const runcfg_t *cfg) {
     res_label(r, e->sink == SK_BUF ? "sink:buffer" : (e->sink == SK_STREAM ? "sink:stream" : "sink:stdout"));
     if (FX.faulted) {
         r->fragile = 1;
-        RES_VIOL(r, "C11:%s:fault:%s", e->name, c11_class(c));
+        RES_VIOL(r, "C11:%s:fault:%s", e->sink == SK_BUF ? "buffer" : "stream", c11_class(c));
         RES_DETAIL(r, "signal %d (%s) while formatting \"%s\"", FX.sig, FX.fault_write ? "store" : "load", FX.fmt);
         return;
     }
     if (FX.ref_len < 0 || FX.ref_len >= (int)sizeof FX.ref - 1) { res_label(r, "libc-declines"); return; }
+    if (nfloat && ndir > 1) { res_label(r, "float-with-other-directives(not judged)"); return; }
     cls = c11_class(c);
+    ename = e->sink == SK_BUF ? "buffer" : "stream";
     fits = e->sink != SK_BUF || (size_t)FX.ref_len < FX.dmax;
     r->nontrivial = ndir > 0 && fits;
     res_label(r, nfloat ? "has-float" : "exact-class");
     res_label(r, fits ? "fits" : "does-not-fit");
     /* history independence: an unrelated long-double/hex-float formatting call in between must not change the bytes */
-    {
+    if ((c->seed & 3) == 0 || nfloat) {
         fcase_t other;
         memset(&other, 0, sizeof other);
         other.ent = 0; other.nd = 2;
@@ -238,7 +265,7 @@ static void exec_c11(const void *k, res_t *r, const runcfg_t *cfg) {
         fmt_run(&other, &FX, 1, G_NA);
         fmt_run(c, &FX, 1, G_NA);
         if (!FX.faulted && (FX.ret != FX2.ret || FX.out_len != FX2.out_len || memcmp(FX.out, FX2.out, FX.out_len) != 0)) {
-            RES_VIOL(r, "C11:%s:history-dependent:%s", e->name, cls);
+            RES_VIOL(r, "C11:%s:history-dependent:%s", ename, cls);
             RES_DETAIL(r, "\"%s\": first call returned %d, the same call after an unrelated one returned %d / different bytes", FX.fmt, FX2.ret, FX.ret);
             return;
         }
@@ -250,7 +277,7 @@ static void exec_c11(const void *k, res_t *r, const runcfg_t *cfg) {
             int enc = 0;
             for (i = 0; i < c->nd; i++) if ((c->d[i].conv == 'C' || c->d[i].conv == 'S') ) enc = 1;
             if (enc) { res_label(r, "encoding-may-fail"); return; }
-            RES_VIOL(r, "C11:%s:fails-although-it-fits:%s", e->name, cls);
+            RES_VIOL(r, "C11:%s:fails-although-it-fits:%s", ename, cls);
             RES_DETAIL(r, "\"%s\": libc renders %d characters (\"%.40s\"), dmax=%zu, but the call returned %d", FX.fmt, FX.ref_len, FX.ref, FX.dmax, FX.ret);
         }
         return;
@@ -262,13 +289,13 @@ static void exec_c11(const void *k, res_t *r, const runcfg_t *cfg) {
         outlen = L;
         if (!fits) {
             if (!e->trunc) {
-                RES_VIOL(r, "C11:%s:success-although-it-does-not-fit:%s", e->name, cls);
+                RES_VIOL(r, "C11:%s:success-although-it-does-not-fit:%s", ename, cls);
                 RES_DETAIL(r, "\"%s\": needs %d+1 characters, dmax=%zu, returned %d", FX.fmt, FX.ref_len, FX.dmax, FX.ret);
                 return;
             }
             /* documented truncation: dest must hold the first dmax-1 characters */
             if (!nfloat && (L != FX.dmax - 1 || memcmp(FX.dest, FX.ref, L) != 0)) {
-                RES_VIOL(r, "C11:%s:wrong-truncated-text:%s", e->name, cls);
+                RES_VIOL(r, "C11:%s:wrong-truncated-text:%s", ename, cls);
                 RES_DETAIL(r, "\"%s\": truncated to \"%.40s\", libc prefix \"%.*s\"", FX.fmt, (char *)FX.dest, (int)(FX.dmax - 1), FX.ref);
             }
             return;
@@ -280,24 +307,24 @@ static void exec_c11(const void *k, res_t *r, const runcfg_t *cfg) {
     }
     if (nfloat == 0) {
         if (outlen != (size_t)FX.ref_len || memcmp(FX.out, FX.ref, outlen) != 0) {
-            RES_VIOL(r, "C11:%s:text-differs:%s", e->name, cls);
+            RES_VIOL(r, "C11:%s:text-differs:%s", ename, cls);
             RES_DETAIL(r, "\"%s\": got \"%.60s\" (%zu), libc \"%.60s\" (%d)", FX.fmt, FX.out, outlen, FX.ref, FX.ref_len);
             return;
         }
     } else if (nfloat == 1 && ndir == 1) {
         if (!float_text_ok(c, FX.out, FX.ref)) {
-            RES_VIOL(r, "C11:%s:float-text-differs:%s", e->name, cls);
+            RES_VIOL(r, "C11:%s:float-text-differs:%s", ename, cls);
             RES_DETAIL(r, "\"%s\": got \"%.60s\", libc \"%.60s\"", FX.fmt, FX.out, FX.ref);
             return;
         }
     } else { res_label(r, "multi-float(not compared)"); return; }
     if (FX.ret != (int)outlen) {
-        RES_VIOL(r, "C11:%s:wrong-count-returned:%s", e->name, cls);
+        RES_VIOL(r, "C11:%s:wrong-count-returned:%s", ename, cls);
         RES_DETAIL(r, "\"%s\": returned %d but %zu characters were stored", FX.fmt, FX.ret, outlen);
     }
 }
 
-const module_t mod_C11 = {"C11", sizeof(fcase_t), 1, {500000, 5000000}, f_init, gen_c11, exec_c11, fmt_describe,
+const module_t mod_C11 = {"C11", sizeof(fcase_t), 1, {300000, 4000000}, f_init, gen_c11, exec_c11, fmt_describe,
                           "formats with 0..4 directives from {d i u x X o c s % lc ls f F e E g G (L)} x flags x width (incl. *) x precision (incl. .*) x length, boundary values, "
                           "dmax from 1 to needed+5, 8 narrow entry points; reference = libc snprintf on the same arguments (called through libffi); "
                           "non-trivial = at least one directive other than %% and the text fits; distinct by decoded format/values/dmax relation/entry point"};
